@@ -3,9 +3,9 @@ from ..core import kdsl, kgen
 from ..core.common import Violation
 from ..runner import Facet, Property
 
-WEIGHTS = {"timeout": 6, "wait": 2, "succeed": 2, "fail": 1, "join": 2, "spawn": 2, "interrupt": 7, "return": 1}
+WEIGHTS = {"timeout": 6, "wait": 2, "succeed": 2, "fail": 1, "join": 2, "spawn": 2, "interrupt": 7, "return": 1, "cbintr": 2}
 VICTIM = {"timeout": 8, "wait": 3, "join": 2, "interrupt": 1, "spawn": 1, "wait_cond": 2}
-ATTACK = {"timeout": 4, "interrupt": 8, "succeed": 2, "fail": 1, "spawn": 1}
+ATTACK = {"timeout": 4, "interrupt": 8, "succeed": 2, "fail": 1, "spawn": 1, "cbintr": 3}
 
 
 def strip(trace):
@@ -22,6 +22,7 @@ def run_case(case):
                     ("intr_refused_dead", "interrupt of finished process"), ("intr_refused_self", "self interrupt"),
                     ("intr_before_start", "interrupt in spawn step"), ("rewait", "re-yield old target"),
                     ("old_target_fired_elsewhere", "old target fires while victim waits elsewhere"),
+                    ("intr_from_callback", "interrupt issued by a plain callback"),
                     ("intr_delivered", "delivered"), ("intr_delivered_target_due_now", "delivered with target due now")]:
         if st.get(k):
             classes.add(name)
@@ -70,6 +71,6 @@ PROP = Property(
                   essential=["interrupt at target instant", ">=2 interrupts pending", "interrupt of finished process",
                              "self interrupt", "re-yield old target", "old target fires while victim waits elsewhere",
                              "victim ends with pending interrupts", "interrupt in spawn step",
-                             "victim interrupted while waiting on a composite event"])],
+                             "victim interrupted while waiting on a composite event", "interrupt issued by a plain callback"])],
     assumptions=["a process is 'finished' once its generator body has returned or raised (harness bookkeeping)"],
 )
